@@ -4,7 +4,7 @@
  (c) end to end with -b (nOS-V and Nanos6): explicit-state search on the real emulator; after every
      accepted event the breakdown rows must equal the sorted per-CPU values derived from the CPU rows."""
 import os, subprocess
-from lib.common import Ctx, Build, Scratch, InfraError, pmap
+from lib.common import Ctx, Build, Scratch, InfraError, pmap, plan_of
 from lib import emusrv, catalog
 from lib.emusrv import Ev, Fin, i32, i64, u32
 from lib.explore import ServerPool, short_hist
@@ -13,7 +13,7 @@ CFG = {"nosv": dict(ch="V", ss=13, ty=11, idle=16, bd=17, body=11, pv="nosv-brea
        "nanos6": dict(ch="6", ss=37, ty=36, idle=40, bd=41, body=1, pv="nanos6-breakdown", neutral=("6Wt", "6WT"))}
 
 
-def cpu_value(disp, row, c):
+def cpu_value(disp, row, c, stale=()):
     """allowed breakdown values of one physical CPU, from what cpu.prv displays (property statement:
     task type while in a task body, otherwise the subsystem, replaced by the idle state when the CPU
     is not progressing)"""
@@ -25,7 +25,12 @@ def cpu_value(disp, row, c):
     if idle != 100:
         return {idle}                   # Resting / Absorbing
     if ss == c["body"]:
-        return {ty} if ty else {0, ss}  # paused task while the body region is open: not fixed by the statement
+        if ty:
+            return {ty}
+        # no task runs although the body region is the innermost one (the task paused there): "otherwise the subsystem".
+        # Only when the task went away *after* the subsystem last changed may the row be empty instead (the view does not
+        # look at the task again until the subsystem changes - the mechanism behind known finding D12)
+        return {0, ss} if row in stale else {ss}
     if ss != 0:
         return {ss}
     # progressing CPU whose thread has no instrumented section open: the "no/unknown subsystem" state (value 2); the view is
@@ -82,15 +87,15 @@ def e2e(ctx, build, scratch, exe, cat, model, tier, looms=1):
         disp0 = {}
         for (n, row, tm, ty, val) in pool.local.init_lines + h0["lines"]:
             disp0[(n, row, ty)] = val
-        depth = (5 if tier == "quick" else 7) - (1 if looms > 1 else 0)
+        depth = (5 if tier == "quick" else (8 if tier == "deep" else 7)) - (1 if looms > 1 else 0)
         tag = "e2e-%s%s" % (model, "" if looms == 1 else "-2looms")
         seen = {h0["hash"]}
-        frontier = [([], disp0)]
+        frontier = [([], disp0, frozenset())]
         nprobe = nacc = nchk = 0
         outcomes = set()
 
-        def check(disp, hist, ev):
-            vals = [cpu_value(disp, r, c) for r in cpurows]
+        def check(disp, hist, ev, stale=()):
+            vals = [cpu_value(disp, r, c, stale) for r in cpurows]
             rows = [disp.get((c["pv"], r, c["bd"]), 0) for r in range(1, ncpu + 1)]
             # rows must be non-decreasing and a sorted choice of one allowed value per CPU
             ok = False
@@ -104,7 +109,7 @@ def e2e(ctx, build, scratch, exe, cat, model, tier, looms=1):
                 # would the rows be explained if a CPU in a task body showed the body subsystem instead of its task type?
                 alt = []
                 for r in cpurows:
-                    v = set(cpu_value(disp, r, c))
+                    v = set(cpu_value(disp, r, c, stale))
                     if disp.get(("cpu", r, c["idle"]), 0) == 100 and disp.get(("cpu", r, c["ss"]), 0) == c["body"] and disp.get(("cpu", r, c["ty"]), 0):
                         v.add(c["body"])
                         v.add(0)
@@ -118,9 +123,9 @@ def e2e(ctx, build, scratch, exe, cat, model, tier, looms=1):
                      "rows": rows, "cpu_values": [sorted(v) for v in vals]}, {"kind": "breakdown-rows", "cause": cause})
         check(disp0, [], None)
         for lvl in range(depth):
-            res = pool.expand_many([(prefix + h, alpha) for (h, d) in frontier])
+            res = pool.expand_many([(prefix + h, alpha) for (h, d, st) in frontier])
             nxt = []
-            for (h, d), (hres, pres) in zip(frontier, res):
+            for (h, d, st), (hres, pres) in zip(frontier, res):
                 if not hres.get("ok"):
                     raise InfraError("replay diverged")
                 for ev, r in zip(alpha, pres):
@@ -148,11 +153,18 @@ def e2e(ctx, build, scratch, exe, cat, model, tier, looms=1):
                                     {"engine": "E3 emu_server -b", "model": model, "spec": spec, "history": [e.line() for e in prefix + h], "probe": ev.line()},
                                     {"kind": "breakdown-unneeded-update"})
                         d2[(n, row, ty)] = val
-                    check(d2, h, ev)
+                    # per CPU: did the task type change after the subsystem last did?
+                    st2 = set(st)
+                    for rr in cpurows:
+                        if d.get(("cpu", rr, c["ss"]), 0) != d2.get(("cpu", rr, c["ss"]), 0):
+                            st2.discard(rr)
+                        elif d.get(("cpu", rr, c["ty"]), 0) != d2.get(("cpu", rr, c["ty"]), 0):
+                            st2.add(rr)
+                    check(d2, h, ev, st2)
                     nchk += 1
                     if r.hash not in seen:
                         seen.add(r.hash)
-                        nxt.append((h + [ev], d2))
+                        nxt.append((h + [ev], d2, frozenset(st2)))
                 if ctx.too_many():
                     break
             frontier = nxt
@@ -172,6 +184,8 @@ def e2e(ctx, build, scratch, exe, cat, model, tier, looms=1):
 
 def run(prop, tier):
     ctx = Ctx("C20", tier, "model_checking")
+    tier = plan_of("C20", tier)
+    ctx.cov["plan"] = tier
     scratch = Scratch("C20")
     try:
         build = Build()
@@ -213,7 +227,7 @@ def run(prop, tier):
                            "alphabet = affinity, pause/resume, task execute/end/pause/resume of two task types, one subsystem enter/leave, progress states")
         ctx.cov["distinct_nontrivial"] = ctx.cov["states"]
         ctx.assumptions += ["per-CPU reference values are derived from the displayed cpu.prv rows with the rule of the property statement; "
-                            "a paused task with the body region still open may show nothing or the subsystem"]
+                            "a paused task with the body region still open shows the subsystem; it may show nothing only if the task went away after the subsystem last changed"]
         return ctx.finish()
     finally:
         scratch.cleanup()
